@@ -156,11 +156,28 @@ class Models(object):
                 raise Undecided("no model for %r applied to symbolic arguments" % (fn,))
         if getattr(fn, "_pyvc_model", False) or getattr(getattr(fn, "__self__", None), "_pyvc_model", False) or isinstance(fn, (types.FunctionType, types.MethodType, type)):
             return fn(*args, **kwargs)              # harness / model code, python-level callables: not python's own machinery
+        # a repository function handed to python's own machinery as a callback (itertools, functools.reduce, re.sub ...)
+        # must still be INTERPRETED when that machinery calls it: running it natively would let it inspect symbolic values
+        args = [self._callback(a) for a in args]
+        kwargs = {k: self._callback(v) for k, v in kwargs.items()}
         Sym.STRICT += 1
         try:
             return fn(*args, **kwargs)
         finally:
             Sym.STRICT -= 1
+
+    def _callback(self, a):
+        f = a.__func__ if isinstance(a, types.MethodType) else a
+        if isinstance(f, types.FunctionType) and not getattr(f, "_pyvc_model", False) and self.interp.should_interpret(f):
+            interp = self.interp
+
+            def cb(*x, **k):
+                return interp.call(a, list(x), k)
+            cb._pyvc_model = True
+            cb.__wrapped__ = a
+            cb.__name__ = getattr(f, "__name__", "callback")
+            return cb
+        return a
 
     # ------------------------------------------------------------------ truth / bool
     def truth(self, v, label=None):
@@ -832,6 +849,15 @@ class Models(object):
             if isinstance(parts, list) and len(parts) == 1:
                 return (parts[0], "", "")
             raise Undecided("str.partition on a string with holes")
+        if name in ("removeprefix", "removesuffix") and len(args) == 1 and isinstance(args[0], str):
+            # s.removeprefix(p) == s[len(p):] if s.startswith(p) else s    (and the mirror image)
+            pre = name == "removeprefix"
+            if args[0] == "":
+                return s
+            r = self.str_startswith(s, args[0]) if pre else self.str_endswith(s, args[0])
+            if not self.interp.truth(r, name) if isinstance(r, Sym) else not r:
+                return s
+            return self.getitem(s, slice(len(args[0]), None) if pre else slice(None, -len(args[0])))
         if name == "rpartition" and len(args) == 1 and isinstance(args[0], str) and len(args[0]) == 1 and isinstance(s, SStr):
             return self.str_rpartition(s, args[0])
         if name in ("isdigit", "isdecimal", "isnumeric") and not args and isinstance(s, SStr):
@@ -1466,6 +1492,18 @@ class Models(object):
             return None
         if isinstance(slf, set) and name == "update" and all(isinstance(a, (list, tuple, set)) and not has_sym(a) for a in args):
             return slf.update(*args)
+        if isinstance(slf, (set, MSet)) and name == "union" and all((isinstance(a, SSeq) and a.rng is not None) or (isinstance(a, (list, tuple, set, frozenset, range)) and not has_sym(a)) for a in args) \
+                and not has_sym(slf, 1) or (isinstance(slf, MSet) and name == "union" and not slf.sitems and all((isinstance(a, SSeq) and a.rng is not None) or (isinstance(a, (list, tuple, set, frozenset, range)) and not has_sym(a)) for a in args)):
+            # s.union(r1, r2, ...): a NEW set holding s and every (possibly abstract) range - like set(s) followed by update()s
+            m = MSet(set.__iter__(slf))
+            m.ranges = list(getattr(slf, "ranges", []))
+            for a in args:
+                if isinstance(a, SSeq):
+                    lo, hi = a.rng
+                    m.ranges.append((lo, hi - 1))
+                else:
+                    set.update(m, a)
+            return m
         if name == "__contains__":
             return self.contains(slf, args[0])
         if isinstance(slf, MSet) and name == "add" and len(args) == 1 and isinstance(args[0], (str, SStr)) and not slf.ranges:
@@ -1521,6 +1559,10 @@ class Models(object):
         t[builtins.iter] = self.b_iter
         t[builtins.zip] = self.b_zip
         t[itertools.islice] = self.b_islice
+        import collections as _c
+        t[_c.Counter.most_common] = self.b_most_common
+        t[itertools.takewhile] = self.b_takewhile
+        t[itertools.dropwhile] = self.b_dropwhile
 
     def b_len(self, x):
         if isinstance(x, SStr):
@@ -1669,6 +1711,17 @@ class Models(object):
             return SSeq(ss.card, ss, name="map(str,%s)" % ss.name, kind="setstr")
         if len(its) == 1 and isinstance(its[0], SSeq) and its[0].kind == "map-int" and fn is builtins.str:
             return SSeq(its[0].length, its[0], name="map(str,%s)" % its[0].name, kind="intstr")
+        if len(its) == 1 and isinstance(its[0], SStr) and len(its[0].atoms) == 1 and isinstance(its[0].atoms[0], Val):
+            # map(f, <symbolic string>): f applied to an arbitrary character (per-character map, joined later)
+            a = its[0].atoms[0]
+            if getattr(fn, "__name__", "") == "__getitem__" and getattr(fn, "__self__", None) is not None and not isinstance(fn, types.FunctionType):
+                v = self.interp.getitem(fn.__self__, SChar(a))        # map(table.__getitem__, s)  ==  (table[c] for c in s)
+            else:
+                v = self.interp.call(fn, [SChar(a)], {})
+            if isinstance(v, QChar) and v.v is a:
+                self.used("per-character-map-rule")
+                return SSeq(self.ctx.fresh_int("nchars"), v, name="chars", kind="qchars")
+            raise Undecided("map over the characters of a symbolic string")
         if len(its) == 1 and isinstance(its[0], SSeq):
             raise Undecided("map over abstract sequence")
         lists = [list(self.interp.iterate(i)) for i in its]
@@ -1814,6 +1867,44 @@ class Models(object):
             raise Undecided("enumerate over an abstract sequence")
         return enumerate(it, start)
 
+    def b_most_common(self, counter, n=None):
+        """collections.Counter.most_common: items sorted by count, largest first, ties in first-seen order (CPython:
+        sorted(items, key=itemgetter(1), reverse=True) / heapq.nlargest, which is documented to be equivalent)"""
+        if isinstance(n, Sym):
+            raise Undecided("most_common with a symbolic n")
+        items = self.b_sorted(list(dict.items(counter)), key=operator.itemgetter(1), reverse=True)
+        return items if n is None else items[:n]
+
+    def b_takewhile(self, pred, it):
+        """itertools.takewhile: items while pred(item) is true; the first item that fails is consumed and dropped, nothing
+        after it is pulled from the source.  pred runs through the interpreter, its truth value may branch."""
+        interp = self.interp
+        src = interp.iterate(self._iterable(it)) if not isinstance(it, Sym) else None
+        if src is None:
+            raise Undecided("takewhile over an abstract sequence")
+
+        def gen():
+            for x in src:
+                if not interp.truth(interp.call(pred, [x], {}), "takewhile"):
+                    return
+                yield x
+        return gen()
+
+    def b_dropwhile(self, pred, it):
+        interp = self.interp
+        src = interp.iterate(self._iterable(it)) if not isinstance(it, Sym) else None
+        if src is None:
+            raise Undecided("dropwhile over an abstract sequence")
+
+        def gen():
+            dropping = True
+            for x in src:
+                if dropping and interp.truth(interp.call(pred, [x], {}), "dropwhile"):
+                    continue
+                dropping = False
+                yield x
+        return gen()
+
     def b_islice(self, it, *args):
         """itertools.islice(iterable, stop) / (iterable, start, stop[, step]) with symbolic bounds: the
         underlying iterator is advanced one item at a time, branching on `index < stop`"""
@@ -1901,7 +1992,7 @@ class Models(object):
 _WS = "".join(chr(c) for c in range(0x110000) if chr(c).isspace()) if False else " \t\n\r\x0b\x0c\x1c\x1d\x1e\x1f\x85\xa0\u1680\u2000\u2001\u2002\u2003\u2004\u2005\u2006\u2007\u2008\u2009\u200a\u2028\u2029\u202f\u205f\u3000"
 
 _STR_METHODS = {"format", "join", "startswith", "endswith", "split", "count", "rstrip", "strip", "lstrip",
-                "replace", "lower", "upper", "encode", "splitlines", "find", "index", "partition", "rpartition", "isdigit", "isdecimal", "isnumeric"}
+                "replace", "lower", "upper", "encode", "splitlines", "find", "index", "partition", "rpartition", "isdigit", "isdecimal", "isnumeric", "removeprefix", "removesuffix"}
 
 _OPSYM = {ast.Lt: "<", ast.LtE: "<=", ast.Gt: ">", ast.GtE: ">=", ast.Eq: "==", ast.NotEq: "!="}
 
